@@ -1,4 +1,5 @@
 mod case;
+mod comp;
 mod ctx;
 mod driver;
 mod engine;
